@@ -295,7 +295,11 @@ def _build_wrapped():
         P.numeric_order, ["C07"],
         pick=lambda i, c: c.get("n1") == 2 and c.get("n2") == 2 and c.get("sep") in ("slash", "dot")
         and not c.get("time"),
-        pick_thorough=lambda i, c: not c.get("time")))
+        # ('-' with the year last costs 20+ minutes per case on one core: the trailing '-YYYY' also
+        #  feeds the UTC-offset grammar; those layouts stay with the kernel contract and with
+        #  `pop_tz_offset_from_string/no-zone-invented-numeric`)
+        pick_thorough=lambda i, c: not c.get("time") and not (
+            c.get("sep") == "dash" and c.get("DATE_ORDER") in ("DMY", "MDY"))))
     # C08: completion of month-year / year-only forms
     out.append(through_front_end(P.parse_incomplete, ["C08"], pick=lambda i, c: i % 6 == 0 and c.get("form") != "full-time",
                                  pick_thorough=lambda i, c: i % 6 in (0, 3) and c.get("form") != "full-time"))
